@@ -354,7 +354,7 @@ func memoryVerdict(r rx.RunResult) string {
 }
 
 func ledgerBuild() rx.BuildOpts {
-	return rx.BuildOpts{ExtraLink: []string{"-Wl,--wrap=ddp_reallocate"}, ExtraObjects: []string{filepath.Join(ev.Build, "c", "ledger.o")}}
+	return rx.BuildOpts{ExtraLink: []string{"-Wl,--wrap=ddp_reallocate"}, ExtraObjects: []string{filepath.Join(rx.VDir, "c", "ledger.o")}}
 }
 
 func runC05(tier string) int {
